@@ -67,6 +67,10 @@ let judge _name ins outs =
     VDisagree ("stress-child-failed:" ^ String.concat "," flags)
   else if List.mem "NOPANIC" flags then VOk true
   else if List.mem "DEADLOCK" flags then VPropfail ("close_returns", "Close did not return within 8s after every parked exchange was released: " ^ String.concat "_" trtoks)
+  else if List.mem "TUNNEL_TRUNCATED" flags then
+    VPropfail ("inflight_tunnel_completes", "the stream through a tunnel that was half-closed when Close was called did not arrive completely: " ^ String.concat "_" trtoks)
+  else if List.mem "UNACCEPTED_OPEN" flags then
+    VPropfail ("late_connections_closed", "a connection dialled after shutdown began completed its handshake but was neither accepted, refused nor closed (listening socket still open after Serve returned): " ^ String.concat "_" trtoks)
   else if List.mem "UNACCEPTED_SERVED" flags then VPropfail ("late_accept_not_served", "a client whose connection was never accepted received a response")
   else if List.exists (fun f -> f = "WARMUPFAIL" || f = "NOPARK" || f = "BADCASE") flags then
     VDisagree ("harness-could-not-drive-scenario:" ^ String.concat "," flags)
